@@ -1092,6 +1092,176 @@ Section PoolProofs.
       eapply pay_fee_err; [exact H|]. rewrite Hdo. lia.
     - apply rbind_err in H as [H|(amt & _ & H)]; [exfalso; eapply of_opt_not_err; eassumption|discriminate].
   Qed.
+  (* ---------------- settlement of a swap that arrives over IBC (Keeper.SwapIncomingFund):
+     [sender] is the swap module account here *)
+  Lemma keeper_in_effect prov r a minout s s' resp : validate_rec r = true ->
+    keeper_swap_in PS px_in pn_in pacct FIXED rate sender prov r a minout s = Ok (s', resp) ->
+    let t := sr_tree resp in
+    rr_dout t = r_out r /\ rr_ain t = a /\ 0 <= rr_aout t /\
+    sr_amount resp = rr_aout t - sr_fee resp /\ minout <= sr_amount resp /\ 0 <= sr_fee resp /\
+    (forall addr d, (forall pid, addr <> pacct pid) ->
+       bal (bk s') addr d = bal (bk s) addr d
+         + (if addr =? sender then (if d =? r_out r then rr_aout t else 0) - (if d =? r_in r then a else 0) else 0)
+         + fee_delta prov (r_out r) (sr_fee resp) addr d).
+  Proof.
+    intros Hv H. unfold keeper_swap_in in H. apply rbind_ok in H as ([[x t] s1] & Hi & H).
+    apply rbind_ok in H as ([net fee] & Hf & H). apply of_opt_ok in Hf. apply fee_in_ok in Hf as [Hnet Hnone].
+    destruct (Z.ltb_spec net minout) as [Hlt|Hge]; [discriminate|].
+    apply rbind_ok in H as (b & Hp & H). apply rbind_ok in H as (amt & Hamt & H). apply of_opt_ok in Hamt.
+    apply chk_int_some in Hamt as [-> _]. injection H as <- <-. cbn [sr_tree sr_fee sr_amount bk].
+    pose proof (inspect_header _ _ _ _ _ _ _ _ _ _ Hi) as (_ & Hx0 & Hdi & Hdo & Hai & Hao). simpl in Hai, Hao.
+    pose proof (exec_in_effect r Hv FIXED eq_refl _ _ _ _ _ Hi) as [Heff _].
+    apply pay_fee_ok in Hp as [Hfee Hp].
+    assert (0 <= fee). { destruct prov; [apply Hfee; discriminate | rewrite (Hnone eq_refl); lia]. }
+    repeat split; try assumption; try lia.
+    intros addr d Hn. rewrite Hp, (Heff addr d Hn), Hdo, Hao. reflexivity.
+  Qed.
+  Lemma keeper_out_effect prov r maxin aout s s' resp : validate_rec r = true ->
+    keeper_swap_out PS pq_out px_out pn_out pacct FIXED rate sender prov r maxin aout s = Ok (s', resp) ->
+    let t := sr_tree resp in
+    rr_dout t = r_out r /\ rr_aout t = aout + sr_fee resp /\ 0 <= rr_aout t /\
+    sr_amount resp = aout /\ rr_ain t <= maxin /\ 0 <= sr_fee resp /\
+    (forall addr d, (forall pid, addr <> pacct pid) ->
+       bal (bk s') addr d = bal (bk s) addr d
+         + (if addr =? sender then (if d =? r_out r then rr_aout t else 0) - (if d =? r_in r then rr_ain t else 0) else 0)
+         + fee_delta prov (r_out r) (sr_fee resp) addr d).
+  Proof.
+    intros Hv H. unfold keeper_swap_out in H. apply rbind_ok in H as ([t fee] & Hc & H).
+    unfold calc_out in Hc. apply rbind_ok in Hc as ([gross fee'] & Hf & Hc). apply of_opt_ok in Hf.
+    apply fee_out_ok in Hf as [Hgross Hnone].
+    apply rbind_ok in Hc as ([[x t'] s0'] & Hi & Hc). injection Hc as <- <-.
+    apply rbind_ok in H as (s1 & Hx & H). destruct (Z.ltb_spec maxin (rr_ain t')) as [Hgt|Hle]; [discriminate|].
+    apply rbind_ok in H as (b & Hp & H). apply rbind_ok in H as (amt & Hamt & H). apply of_opt_ok in Hamt.
+    apply chk_int_some in Hamt as [-> _]. injection H as <- <-. cbn [sr_tree sr_fee sr_amount bk].
+    pose proof (inspect_header _ _ _ _ _ _ _ _ _ _ Hi) as (Hg0 & _ & Hdi & Hdo & Hai & Hao). simpl in Hai, Hao.
+    pose proof (exec_out_effect r Hv FIXED eq_refl eq_refl _ _ _ _ _ Hi _ _ Hx) as [Heff _].
+    apply pay_fee_ok in Hp as [Hfee Hp].
+    assert (0 <= fee'). { destruct prov; [apply Hfee; discriminate | rewrite (Hnone eq_refl); lia]. }
+    repeat split; try assumption; try lia.
+    intros addr d Hn. rewrite Hp, (Heff addr d Hn), Hdo, Hao, Hai. reflexivity.
+  Qed.
+
+  (* what handing [net] of [dout] from the module account to [receiver] adds to [addr] in [d] *)
+  Definition forward_delta (receiver dout net addr d : Z) : Z :=
+    if d =? dout then (if addr =? receiver then net else 0) - (if addr =? sender then net else 0) else 0.
+
+  (* incoming_fund_amounts: a successful SwapIncomingFund on a valid route. The receiver's net
+     output is amount_out (exact-out) resp. >= min_amount_out (exact-in), the input spent is at
+     most the incoming amount, and every non-pool account changes by the swap, the fee and the
+     hand-over: in particular the module account keeps nothing of the output denom. *)
+  Theorem incoming_fund_amounts receiver prov out r amt_in x s s' resp : validate_rec r = true ->
+    swap_incoming_fund PS pq_out px_in px_out pn_in pn_out pacct FIXED rate sender receiver prov out r amt_in x s = Ok (s', resp) ->
+    let t := sr_tree resp in
+    sr_amount resp = rr_aout t - sr_fee resp /\ 0 <= sr_fee resp /\ rr_ain t <= amt_in /\
+    (if out then sr_amount resp = x else rr_ain t = amt_in /\ x <= sr_amount resp) /\
+    (forall addr d, (forall pid, addr <> pacct pid) ->
+       bal (bk s') addr d = bal (bk s) addr d
+         + (if addr =? sender then (if d =? r_out r then rr_aout t else 0) - (if d =? r_in r then rr_ain t else 0) else 0)
+         + fee_delta prov (r_out r) (sr_fee resp) addr d
+         + forward_delta receiver (r_out r) (sr_amount resp) addr d).
+  Proof.
+    intros Hv H. unfold swap_incoming_fund in H. apply rbind_ok in H as ([s1 resp1] & Hk & H).
+    apply rbind_ok in H as (net & Hnet & H). apply of_opt_ok in Hnet. apply chk_int_some in Hnet as [-> _].
+    destruct (Z.ltb_spec (rr_aout (sr_tree resp1) - sr_fee resp1) 0) as [Hneg|Hnn]; [discriminate|].
+    apply rbind_ok in H as (b & Hb & H). injection H as <- <-. cbn [sr_tree sr_fee sr_amount bk].
+    assert (Hfw : forall addr d, bal b addr d = bal (bk s1) addr d
+              + forward_delta receiver (rr_dout (sr_tree resp1)) (rr_aout (sr_tree resp1) - sr_fee resp1) addr d).
+    { unfold forward_delta. destruct (Z.eqb_spec (rr_aout (sr_tree resp1) - sr_fee resp1) 0) as [E|E].
+      - injection Hb as <-. intros addr d. rewrite E. destruct (d =? _), (addr =? receiver), (addr =? sender); lia.
+      - apply bank_send_ok in Hb as [_ Hb]. intros addr d. rewrite Hb.
+        destruct (addr =? sender), (addr =? receiver), (d =? rr_dout (sr_tree resp1)); simpl; lia. }
+    destruct out.
+    - pose proof (keeper_out_effect prov r amt_in x s s1 resp1 Hv Hk) as Hx. cbv zeta in Hx.
+      destruct Hx as (Hdo & Hao & _ & Hamt & Hmax & Hfee & Heff).
+      repeat split; try assumption; try lia.
+      intros addr d Hn. rewrite Hfw, (Heff addr d Hn), Hdo. reflexivity.
+    - pose proof (keeper_in_effect prov r amt_in x s s1 resp1 Hv Hk) as Hx. cbv zeta in Hx.
+      destruct Hx as (Hdo & Hai & _ & Hamt & Hmin & Hfee & Heff).
+      repeat split; try assumption; try lia.
+      intros addr d Hn. rewrite Hfw, (Heff addr d Hn), Hdo, Hai. reflexivity.
+  Qed.
+
+  Lemma keeper_in_need prov r a minout s e : validate_rec r = true -> NoDup (pools_of r) -> width_ok r = true ->
+    0 <= a -> 0 < minout -> a <= bal (bk s) sender (r_in r) -> funded s -> solvent_in (pools_of r) s ->
+    keeper_swap_in PS px_in pn_in pacct FIXED rate sender prov r a minout s = Err e -> e <> E_INSUFFICIENT.
+  Proof.
+    intros Hv Hnd Hw Ha Hm Hb Hf Hs H.
+    unfold keeper_swap_in in H. apply rbind_err in H as [H|([[x t] s1] & Hi & H)].
+    { exact (need_in r Hv Hw Hnd _ _ _ Ha Hb Hf Hs H). }
+    apply rbind_err in H as [H|([net fee] & Hfe & H)]; [exfalso; eapply of_opt_not_err; eassumption|].
+    apply of_opt_ok in Hfe. apply fee_in_ok in Hfe as [Hnet _].
+    destruct (Z.ltb_spec net minout) as [Hlt|Hge]; [injection H as <-; discriminate|].
+    apply rbind_err in H as [H|(b & _ & H)].
+    - pose proof (exec_in_effect r Hv FIXED eq_refl _ _ _ _ _ Hi) as He.
+      pose proof (inspect_header _ _ _ _ _ _ _ _ _ _ Hi) as (_ & Hx & _ & Hdo & _ & Hao). simpl in Hao.
+      destruct (eff_funded _ _ _ _ _ _ _ He Hx Hb Hf) as (_ & Hb1 & _).
+      eapply pay_fee_err; [exact H|]. rewrite Hdo. lia.
+    - apply rbind_err in H as [H|(amt & _ & H)]; [exfalso; eapply of_opt_not_err; eassumption|discriminate].
+  Qed.
+  Lemma keeper_out_need prov r maxin aout s e t fee : validate_rec r = true -> NoDup (pools_of r) -> 0 < aout ->
+    calc_out PS pq_out FIXED rate (is_some prov) r aout s = Ok (t, fee) ->
+    rr_ain t <= bal (bk s) sender (r_in r) -> funded s -> solvent_out (pools_of r) s ->
+    keeper_swap_out PS pq_out px_out pn_out pacct FIXED rate sender prov r maxin aout s = Err e -> e <> E_INSUFFICIENT.
+  Proof.
+    intros Hv Hnd Ha Hc Hb Hf Hs H.
+    unfold keeper_swap_out in H. rewrite Hc in H. simpl in H.
+    unfold calc_out in Hc. apply rbind_ok in Hc as ([gross fee'] & Hfe & Hc). apply of_opt_ok in Hfe.
+    apply fee_out_ok in Hfe as [Hgross _].
+    apply rbind_ok in Hc as ([[x t'] s0'] & Hi & Hc). injection Hc as <- <-.
+    pose proof (inspect_header _ _ _ _ _ _ _ _ _ _ Hi) as (Hg0 & Hx & _ & Hdo & Hai & Hao). simpl in Hai, Hao.
+    rewrite Hai in Hb.
+    apply rbind_err in H as [H|(s1 & Hx1 & H)].
+    { exact (need_out r Hv Hnd _ _ _ _ _ Hi s e (fun _ _ => eq_refl) Hb Hf Hs H). }
+    destruct (Z.ltb_spec maxin (rr_ain t')) as [Hgt|Hle]; [injection H as <-; discriminate|].
+    apply rbind_err in H as [H|(b & _ & H)].
+    - pose proof (exec_out_effect r Hv FIXED eq_refl eq_refl _ _ _ _ _ Hi _ _ Hx1) as He.
+      destruct (eff_funded _ _ _ _ _ _ _ He Hg0 Hb Hf) as (_ & Hb1 & _).
+      eapply pay_fee_err; [exact H|]. rewrite Hdo. lia.
+    - apply rbind_err in H as [H|(amt & _ & H)]; [exfalso; eapply of_opt_not_err; eassumption|discriminate].
+  Qed.
+
+  (* incoming_only_input: the module account holding only the incoming amount of the input denom
+     (>= amount_in, resp. >= the quoted input) never meets an insufficient-funds failure, neither
+     in the swap, nor in the fee transfer, nor in the hand-over to the receiver *)
+  Theorem incoming_only_input receiver prov (out : bool) r amt_in x s e :
+    validate_rec r = true -> NoDup (pools_of r) -> width_ok r = true -> 0 <= amt_in -> 0 < x ->
+    funded s -> solvent_in (pools_of r) s -> solvent_out (pools_of r) s ->
+    (if out then exists t fee, calc_out PS pq_out FIXED rate (is_some prov) r x s = Ok (t, fee) /\
+                               rr_ain t <= bal (bk s) sender (r_in r)
+     else amt_in <= bal (bk s) sender (r_in r)) ->
+    swap_incoming_fund PS pq_out px_in px_out pn_in pn_out pacct FIXED rate sender receiver prov out r amt_in x s = Err e ->
+    e <> E_INSUFFICIENT.
+  Proof.
+    intros Hv Hnd Hw Ha Hx Hf Hsi Hso Hpre H. unfold swap_incoming_fund in H.
+    apply rbind_err in H as [H|([s1 resp1] & Hk & H)].
+    { destruct out.
+      - destruct Hpre as (t & fee & Hc & Hb). eapply (keeper_out_need prov r amt_in x s e t fee); eassumption.
+      - eapply (keeper_in_need prov r amt_in x s e); eassumption. }
+    apply rbind_err in H as [H|(net & Hnet & H)]; [exfalso; eapply of_opt_not_err; eassumption|].
+    apply of_opt_ok in Hnet. apply chk_int_some in Hnet as [-> _].
+    destruct (Z.ltb_spec (rr_aout (sr_tree resp1) - sr_fee resp1) 0) as [Hneg|Hnn]; [discriminate|].
+    apply rbind_err in H as [H|(b & _ & H)]; [|discriminate].
+    destruct (Z.eqb_spec (rr_aout (sr_tree resp1) - sr_fee resp1) 0) as [E|E]; [discriminate|].
+    apply bank_send_err in H as [[Hc ->]|[Hc ->]]; [discriminate|]. exfalso.
+    (* the module account holds at least gross - fee of the output denom after the keeper call *)
+    assert (Hbal : rr_aout (sr_tree resp1) - sr_fee resp1 <= bal (bk s1) sender (rr_dout (sr_tree resp1))); [|lia].
+    destruct out.
+    - destruct Hpre as (t & fee & Hc' & Hb).
+      pose proof (keeper_out_effect prov r amt_in x s s1 resp1 Hv Hk) as Hy. cbv zeta in Hy.
+      destruct Hy as (Hdo & Hao & Hg0 & Hamt & Hmax & Hfee & Heff).
+      assert (Ht : sr_tree resp1 = t).
+      { unfold keeper_swap_out in Hk. rewrite Hc' in Hk. simpl in Hk.
+        apply rbind_ok in Hk as (s2 & _ & Hk). destruct (amt_in <? rr_ain t); [discriminate|].
+        apply rbind_ok in Hk as (b2 & _ & Hk). apply rbind_ok in Hk as (amt & _ & Hk). injection Hk as _ <-. reflexivity. }
+      rewrite Ht in *. rewrite (Heff sender _ sender_not_pool), Hdo, !Z.eqb_refl. unfold fee_delta.
+      pose proof (Hf (r_out r)) as Hf0.
+      destruct prov as [p|]; rewrite ?Z.eqb_refl; [destruct (sender =? p)|]; destruct (Z.eqb_spec (r_out r) (r_in r)) as [Ed|Ed]; try rewrite Ed in *; lia.
+    - pose proof (keeper_in_effect prov r amt_in x s s1 resp1 Hv Hk) as Hy. cbv zeta in Hy.
+      destruct Hy as (Hdo & Hai & Hg0 & Hamt & Hmin & Hfee & Heff).
+      rewrite (Heff sender _ sender_not_pool), Hdo, !Z.eqb_refl. unfold fee_delta.
+      pose proof (Hf (r_out r)) as Hf0.
+      destruct prov as [p|]; rewrite ?Z.eqb_refl; [destruct (sender =? p)|]; destruct (Z.eqb_spec (r_out r) (r_in r)) as [Ed|Ed]; try rewrite Ed in *; lia.
+  Qed.
   End Msgs.
 End PoolProofs.
 
@@ -1214,6 +1384,32 @@ Section Bundled.
     - destruct (Z.eqb_spec sender p) as [E|E]; [subst p; congruence|]. destruct (d =? r_out r), (d =? r_in r); lia.
     - rewrite (Hnf eq_refl). destruct (d =? r_out r), (d =? r_in r); lia.
   Qed.
+  (* settlement of a swap arriving over IBC; [sender] is the swap module account *)
+  Lemma b_incoming_fund_amounts receiver prov out r amt_in x s s' resp : validate_rec r = true ->
+    swap_incoming_fund PS pq_out px_in px_out pn_in pn_out pacct FIXED rate sender receiver prov out r amt_in x s = Ok (s', resp) ->
+    let t := sr_tree resp in
+    sr_amount resp = rr_aout t - sr_fee resp /\ 0 <= sr_fee resp /\ rr_ain t <= amt_in /\
+    (if out then sr_amount resp = x else rr_ain t = amt_in /\ x <= sr_amount resp) /\
+    (forall addr d, (forall pid, addr <> pacct pid) ->
+       bal (bk s') addr d = bal (bk s) addr d
+         + swap_delta prov (r_in r) (r_out r) (rr_ain t) (rr_aout t) (sr_fee resp) addr d
+         + forward_delta sender receiver (r_out r) (sr_amount resp) addr d).
+  Proof.
+    intros Hv H. destruct C as [c1 c2 c3 c4 c5 c6 c7 c8].
+    pose proof (incoming_fund_amounts PS pq_in pq_out px_in px_out pn_in pn_out pacct sender c1 c2 c3 c4 c5 c7 c8 c6
+                  rate receiver prov out r amt_in x s s' resp Hv H) as Hx.
+    cbv zeta in Hx |- *. destruct Hx as (? & ? & ? & ? & Hb). repeat split; try assumption.
+    intros addr d Hn. rewrite (Hb addr d Hn). unfold swap_delta. lia.
+  Qed.
+  Lemma b_incoming_only_input receiver prov (out : bool) r amt_in x s e :
+    validate_rec r = true -> NoDup (pools_of r) -> width_ok r = true -> 0 <= amt_in -> 0 < x ->
+    funded PS sender s -> solvent_in PS px_in pacct (pools_of r) s -> solvent_out PS px_out pacct (pools_of r) s ->
+    (if out then exists t fee, calc_out PS pq_out FIXED rate (is_some prov) r x s = Ok (t, fee) /\
+                               rr_ain t <= bal (bk s) sender (r_in r)
+     else amt_in <= bal (bk s) sender (r_in r)) ->
+    swap_incoming_fund PS pq_out px_in px_out pn_in pn_out pacct FIXED rate sender receiver prov out r amt_in x s = Err e ->
+    e <> E_INSUFFICIENT.
+  Proof. destruct C as [c1 c2 c3 c4 c5 c6 c7 c8]. eapply incoming_only_input; eassumption. Qed.
 End Bundled.
 
 (* ------------------------------------------------------------------ a concrete instance: witnesses *)
@@ -1321,3 +1517,12 @@ Proof.
   - eexists; eexists; split; [vm_compute; reflexivity|]. vm_compute. split; reflexivity.
   - eexists; eexists; split; [vm_compute; reflexivity|]. vm_compute. reflexivity.
 Qed.
+
+(* non-vacuity of the incoming-fund statements: account 1 as the module account holding only
+   1000 of the input denom, receiver 7, provider 5, 1% fee *)
+Lemma incoming_example_runs :
+  exists s' resp, swap_incoming_fund unit toy_q toy_x toy_x toy_n toy_n toy_pacct FIXED 10000000000000000 1 7 (Some 5) true
+                    nested_example 1000 500 toy_st = Ok (s', resp) /\
+    sr_amount resp = 500 /\ bal (bk s') 7 3 = bal (bk toy_st) 7 3 + 500 /\ bal (bk s') 1 3 = 0 /\
+    bal (bk s') 1 1 = 1000 - rr_ain (sr_tree resp).
+Proof. eexists; eexists; split; [vm_compute; reflexivity|]. vm_compute. repeat split; reflexivity. Qed.
